@@ -57,7 +57,12 @@
    methods called on them and the writes through syntax-tree / registry /
    bundle typed values in soyhtml, soyjs and template are enumerated from the
    source on every run and must satisfy what the review concluded
-   ([C09_package_state_quiet]). *)
+   ([C09_package_state_quiet]).
+
+   Generated inputs of this property (tablegen): Generated/PkgState.v by
+   90-pkgvars (marker pkg_state_generated in Generated/Tables.v),
+   Generated/JsGenTrace.v by 95-jsgen-trace (marker jsgen_trace_derived);
+   a failure of either generator is charged to this property. *)
 From Coq Require Import List Arith.
 From Soy Require Import Model.Bytes Model.Values Model.Outcome Model.Ast Model.Interp Model.JsGen Generated.JsGenTrace
   Model.Conc Model.ConcRender Model.ConcJs Generated.PkgState Model.ConcGlobals
